@@ -58,6 +58,7 @@ class Kernel:
 
 
 WHILE_UNROLL = 1
+WHILE_UNROLL_SCAN = 6
 
 
 class Interp:
@@ -298,7 +299,10 @@ class Interp:
         f = self.frames[-1]
         f.loops.append([False, False])
         depth = 0
-        for _ in range(WHILE_UNROLL):
+        # rejection loops (a random draw in the body) are unrolled once, the redraw assumed accepted; deterministic scans
+        # (while i < N and cond(i): i += 1) are unrolled WHILE_UNROLL_SCAN times; the residual condition is an assumption
+        draws = any(isinstance(n, ast.Attribute) and n.attr in ('randint', 'random', 'choice', 'rand') for n in ast.walk(s))
+        for _ in range(WHILE_UNROLL if draws else WHILE_UNROLL_SCAN):
             c = to_bool(self.ev(s.test))
             if c is False:
                 break
